@@ -35,9 +35,11 @@ var (
 	rxFullWordCounter   = regexp.MustCompile(`[\x{3040}-\x{A4CF}]`)
 	rxLetterWordCounter = regexp.MustCompile(`[\x{AC00}-\x{D7AF}]`)
 
-	rxWordMatcher1 = regexp.MustCompile(`(\S*[\w\x{00C0}-\x{1FFF}\x{AC00}-\x{D7AF}]\S*)`)
+	// In Go `\S` only excludes ASCII white space, so no-break and other Unicode
+	// spaces are excluded explicitly: they separate words as well.
+	rxWordMatcher1 = regexp.MustCompile(`([^\s\p{Z}]*[\w\x{00C0}-\x{1FFF}\x{AC00}-\x{D7AF}][^\s\p{Z}]*)`)
 	rxWordMatcher2 = regexp.MustCompile(`([\x{3040}-\x{A4CF}])`)
-	rxWordMatcher3 = regexp.MustCompile(`(\S*[\w\x{00C0}-\x{1FFF}]\S*)`)
+	rxWordMatcher3 = regexp.MustCompile(`([^\s\p{Z}]*[\w\x{00C0}-\x{1FFF}][^\s\p{Z}]*)`)
 )
 
 // WordCounter is object for counting the number of words. For some languages,
